@@ -346,6 +346,14 @@ def semantic_book(rng, kind):
     if kind == 'mixed':
         from . import c20
         return wbspec.spec(wbspec.sheet('S1', dict(c20.MIXED)))
+    if kind == 'nests':
+        # typed random nests over the whole function set (vf/gen/exprs.py): results of one function arriving at another
+        from ..gen import exprs
+        g = exprs.Gen(rng)
+        cells = dict(exprs.BLOCK)
+        for i in range(40):
+            cells[wbspec.a1(i + 1, 10)] = g.formula(rng.choice('NNNTTBD'), rng.choice([2, 3]))[0]
+        return wbspec.spec(wbspec.sheet('S', cells))
     if kind == 'dates':
         import datetime as dt
         d0 = dt.datetime(2024, 1, 1)
@@ -364,7 +372,7 @@ def semantic_book(rng, kind):
     raise ValueError(kind)
 
 
-SEM_KINDS = ['c11', 'c12', 'c12', 'c16', 'c17', 'c14', 'dates', 'mixed', 'dates']
+SEM_KINDS = ['c11', 'c12', 'nests', 'c16', 'c17', 'c14', 'dates', 'mixed', 'nests', 'c12', 'dates']
 
 
 def plan(tier, seed):
